@@ -57,7 +57,11 @@ func vDrawRef(prefix string) vRef {
 	return r
 }
 
-func vNewAdoptionScenario(strategyKind int) *vAdoptionScenario {
+func vNewAdoptionScenario(strategyKind int) *vAdoptionScenario { return vNewScenario(strategyKind, false) }
+
+// vNewScenario: with ownershipOnly the draws that only matter to the adoption decision (revision annotation, package
+// label, forced adoption, collision protection) are fixed.
+func vNewScenario(strategyKind int, ownershipOnly bool) *vAdoptionScenario {
 	s := &vAdoptionScenario{strategyKind: strategyKind}
 	scheme := vScheme()
 	s.strategy = vStrategy(strategyKind, scheme)
@@ -136,6 +140,11 @@ func vNewAdoptionScenario(strategyKind int) *vAdoptionScenario {
 		}
 	}
 
+	if ownershipOnly {
+		s.cp = corev1alpha1.CollisionProtectionPrevent
+		s.desired = vDesiredObject()
+		return s
+	}
 	// revision annotation
 	s.revKind = verifrt.IntRange("revAnnotation", 0, 3)
 	ann := s.existing.GetAnnotations()
@@ -174,15 +183,20 @@ func vNewAdoptionScenario(strategyKind int) *vAdoptionScenario {
 		string(corev1alpha1.CollisionProtectionPrevent), string(corev1alpha1.CollisionProtectionIfNoController),
 		string(corev1alpha1.CollisionProtectionNone)))
 
-	// desired object as the phase lists it
-	s.desired = &unstructured.Unstructured{Object: map[string]interface{}{}}
-	s.desired.SetAPIVersion("v1")
-	s.desired.SetKind("ConfigMap")
-	s.desired.SetName("obj")
-	s.desired.SetNamespace(vNS)
-	s.desired.SetLabels(map[string]string{"app": "x"})
-	_ = unstructured.SetNestedField(s.desired.Object, "v", "data", "k")
+	s.desired = vDesiredObject()
 	return s
+}
+
+// vDesiredObject: the object as the phase lists it.
+func vDesiredObject() *unstructured.Unstructured {
+	d := &unstructured.Unstructured{Object: map[string]interface{}{}}
+	d.SetAPIVersion("v1")
+	d.SetKind("ConfigMap")
+	d.SetName("obj")
+	d.SetNamespace(vNS)
+	d.SetLabels(map[string]string{"app": "x"})
+	_ = unstructured.SetNestedField(d.Object, "v", "data", "k")
+	return d
 }
 
 // --- reference predicates written from the property statement (they read the harness's own records) ---
